@@ -1,6 +1,7 @@
 package main
 
 import (
+	"os"
 	"go/constant"
 	"fmt"
 	"go/token"
@@ -1955,7 +1956,10 @@ func c11RuleL(w *World, r *Report, subjects []*ssa.Function, derefs map[*ssa.Fun
 				continue
 			}
 			nilSucc := b.Succs[1-nn]
-			if blockReaches(nilSucc, func(i ssa.Instruction) bool {
+			if nilSucc.Dominates(b) {
+				continue // the nil edge is the loop's back edge (a `continue`): nothing is reported for this element
+			}
+			if blockReachesForward(nilSucc, func(i ssa.Instruction) bool {
 				c, ok := i.(ssa.CallInstruction)
 				_ = c
 				return ok && isAddSyntaxError(i)
@@ -1981,6 +1985,7 @@ func c11RuleL(w *World, r *Report, subjects []*ssa.Function, derefs map[*ssa.Fun
 			}
 		}
 	}
+	byConstruction := map[string]bool{}
 	// links that can never hold nil: every store writes a fresh object or a found lookup result, every literal sets the field
 	for lk := range linkFields {
 		if _, done := validated[lk]; done && validated[lk] != "" {
@@ -1988,6 +1993,7 @@ func c11RuleL(w *World, r *Report, subjects []*ssa.Function, derefs map[*ssa.Fun
 		}
 		if why := w.linkNonNilByConstruction(lk); why != "" {
 			validated[lk] = why
+			byConstruction[lk] = true
 		}
 	}
 	vlook := w.validatedLookups()
@@ -2051,12 +2057,17 @@ func c11RuleL(w *World, r *Report, subjects []*ssa.Function, derefs map[*ssa.Fun
 					return
 				}
 				linkSeen[lk]++
-				if v, ok := validated[lk]; ok && v != "" {
-					return
+				if v, ok := validated[lk]; ok && v != "" && (!parsePhase[fn] || byConstruction[lk]) {
+					return // generators run on validated, diagnostic-free models; the parse phase itself runs before/while validating
 				}
 				if why := derefUse(w, x, derefs, 0); why != "" {
 					// Packet.LengthField is implied non-nil under the LenAttr test (set together in VisitPacketDefinition)
 					if lk == "Packet.LengthField" && w.underLenAttrTestIP(b, 0) {
+						return
+					}
+					// a model accessor that reads the link only for one kind of field (case *ObjectFieldAttribute: c.RefPacket...):
+					// fine when no parse-phase caller can hand it a field of that kind
+					if parsePhase[fn] && w.kindGuardedAtParseCallers(fn, fa.X, parsePhase) {
 						return
 					}
 					linkBad[lk] = append(linkBad[lk], fnKey(fn)+" "+why+" ("+w.instrPos(ins)+")")
@@ -2386,6 +2397,125 @@ func (w *World) lookupMisuse(lk *ssa.Lookup, derefs map[*ssa.Function]map[int]st
 }
 
 // underLenAttrTest: block dominated by the ok edge of a checked assertion of some field's LenAttr to *LengthFieldAttribute.
+// kindGuardedAtParseCallers: base is the attribute obtained by asserting P.Attr to one attribute type T, P being a (receiver)
+// parameter of fn; every call site of fn in the parse phase passes a field that a dominating checked assertion (or type-switch case)
+// has shown to be of another kind.
+func (w *World) kindGuardedAtParseCallers(fn *ssa.Function, base ssa.Value, parsePhase map[*ssa.Function]bool) bool {
+	// base: extract #0 of typeassert,ok X.(T) / typeassert X.(T) with X = load of (&P.Attr)
+	v := stripIdentity(base)
+	var ta *ssa.TypeAssert
+	switch x := v.(type) {
+	case *ssa.Extract:
+		ta, _ = x.Tuple.(*ssa.TypeAssert)
+	case *ssa.TypeAssert:
+		ta = x
+	}
+	if ta == nil {
+		return false
+	}
+	k, known := kindTypes[modelTypeName(ta.AssertedType)]
+	if !known {
+		return false
+	}
+	var prm *ssa.Parameter
+	switch x := ta.X.(type) {
+	case *ssa.Field:
+		prm, _ = x.X.(*ssa.Parameter)
+	case *ssa.UnOp:
+		if fa, ok := x.X.(*ssa.FieldAddr); ok {
+			switch b := fa.X.(type) {
+			case *ssa.Parameter:
+				prm = b
+			case *ssa.Alloc: // spilled value receiver
+				for _, p := range fn.Params {
+					if p.Name() == b.Comment {
+						prm = p
+					}
+				}
+			}
+		}
+	}
+	if prm == nil {
+		return false
+	}
+	idx := -1
+	for i, q := range fn.Params {
+		if q == prm {
+			idx = i
+		}
+	}
+	n := w.CallGraph().Nodes[fn]
+	if idx < 0 || n == nil {
+		return false
+	}
+	sites := 0
+	for _, e := range n.In {
+		caller := e.Caller.Func
+		if caller.Synthetic != "" {
+			// pointer-receiver wrapper of a value method: look through it
+			continue
+		}
+		if !parsePhase[caller] {
+			continue // generator side: validated models only
+		}
+		if e.Site != nil && e.Site.Common().IsInvoke() && !w.everBoxed(prm.Type(), e.Site.Common().Method.Name()) {
+			continue // class-hierarchy edge from an interface call: a value of this type is never put into an interface
+		}
+		sites++
+		if e.Site == nil || e.Site.Common().IsInvoke() || idx >= len(e.Site.Common().Args) {
+			return false
+		}
+		arg := stripIdentity(e.Site.Common().Args[idx])
+		if ld, ok := arg.(*ssa.UnOp); ok && ld.Op == token.MUL {
+			arg = stripIdentity(ld.X) // value receiver: *f
+		}
+		guarded := false
+		for _, bb := range caller.Blocks {
+			cond := branchCond(bb)
+			if cond == nil {
+				continue
+			}
+			tf, refine := fieldTest(cond)
+			if tf == nil || canonField(tf) != canonField(arg) {
+				continue
+			}
+			for succ := 0; succ < 2; succ++ {
+				st := refine(stTop, succ == 0)
+				if st.K&(1<<k) == 0 && edgeDominates(bb, succ, e.Site.Block()) {
+					guarded = true
+				}
+			}
+		}
+		if !guarded {
+			if os.Getenv("FINLINT_DEBUG") != "" {
+				fmt.Println("DBG kind-guard fails at", fnKey(caller), w.instrPos(e.Site))
+			}
+			return false
+		}
+	}
+	return true
+}
+
+// everBoxed: some repo function converts a value of type t (or *t) to an interface.
+func (w *World) everBoxed(t types.Type, method string) bool {
+	if w.boxed == nil {
+		w.boxed = map[string]bool{}
+		for _, fn := range w.allFuncsInRepo() {
+			forEachInstr(fn, func(_ *ssa.BasicBlock, ins ssa.Instruction) {
+				if mi, ok := ins.(*ssa.MakeInterface); ok {
+					if it, ok := mi.Type().Underlying().(*types.Interface); ok {
+						for i := 0; i < it.NumMethods(); i++ {
+							w.boxed[mi.X.Type().String()+"|"+it.Method(i).Name()] = true
+						}
+					}
+				}
+			})
+		}
+	}
+	s := t.String()
+	return w.boxed[s+"|"+method] || w.boxed["*"+s+"|"+method] || w.boxed[strings.TrimPrefix(s, "*")+"|"+method]
+}
+
 // underLenAttrTestIP: the block is under the LenAttr test, or every call site of its function in the program text is.
 func (w *World) underLenAttrTestIP(blk *ssa.BasicBlock, depth int) bool {
 	if underLenAttrTest(blk) {
